@@ -50,6 +50,26 @@ Export ==
                               values |-> x.values, error |-> x.error, yields |-> x.yields])>>)
 
 -----------------------------------------------------------------------------
+(* ArgSpec (OciFuncsMC_args.cfg): the cases again over the special argument values:        *)
+(* 18 methods x {each field alone, all, none, all but the own} x constructor x every       *)
+(* argument profile of the method (156 in total), plus the nil table per profile.          *)
+ArgFamily(m) == {{f} : f \in Methods} \cup {Methods, {}, Methods \ {m}}
+ArgInit ==
+  c \in UNION {
+         {[m |-> m, F |-> F, custom |-> cu, nilRecv |-> FALSE, av |-> av] :
+              F \in ArgFamily(m), cu \in BOOLEAN, av \in ArgProfiles(m)}
+         \cup {[m |-> m, F |-> {}, custom |-> FALSE, nilRecv |-> TRUE, av |-> av] : av \in ArgProfiles(m)}
+       : m \in Methods}
+ArgSpec == ArgInit /\ [][UNCHANGED c]_c
+ArgProps == PropsAt(c.m, c.F, c.custom, c.nilRecv) /\ ArgsIrrelevantAt(c.m, c.F, c.custom, c.nilRecv)
+ArgExport ==
+  LET o == CallWithArgs(c.m, c.F, c.custom, c.nilRecv, c.av)
+      x == Effects(c.m, o) IN
+  \A s \in SretsFor(o) :
+    PrintT(<<"MBT", ToJson([m |-> c.m, F |-> c.F, custom |-> c.custom, nilrecv |-> c.nilRecv, sret |-> s, av |-> c.av,
+                            pred |-> o.kind, to |-> o.to, ctors |-> x.ctors,
+                            values |-> x.values, error |-> x.error, yields |-> x.yields])>>)
+-----------------------------------------------------------------------------
 \* The subset lattice is walked from the empty table by setting one more field per step, so
 \* that the enumeration is spread over TLC's workers (as 2^20 initial states: 2 min; so: 25 s).
 TableInit == c \in [F : {{}}, custom : BOOLEAN, nilRecv : BOOLEAN]
